@@ -8,6 +8,8 @@
 //   lview[llb][x]    the x-th byte of the queue (0 <= x < bytes)
 //   npos[llb][n]     position of node n in llb
 //   nown[n]          the buffer that currently links node n (nil: none); frames are stated over it
+//   lbufs[llb][a]    a is (or was) the backing array of a node buffer of llb: an over-approximating set that only
+//                    grows by arrays the list acquires; disjointness from other memory is stated over it
 // The ghost state is changed only by the ghostdef clauses of pop / pushFront / pushBack.
 
 package linkedlist
@@ -17,20 +19,22 @@ package linkedlist
 //@ ghost var lview map[Ref]map[int]int
 //@ ghost var npos map[Ref]map[Ref]int
 //@ ghost var nown map[Ref]Ref
+//@ ghost var lbufs map[Ref]map[Ref]bool
 //
 //@ pure nd(llb *Buffer, i int) *node := lnodes[llb][i]
 //@ pred innode(llb *Buffer, x *node) := 0 <= npos[llb][x] && npos[llb][x] < llb.size && lnodes[llb][npos[llb][x]] == x
 //@ pred notin(llb *Buffer, b *node) := forall i :: 0 <= i && i < llb.size ==> lnodes[llb][i] != b
 //@ pred mine(llb *Buffer, x *node) := nown[x] == llb || nown[x] == nil
-//@ pred noalias(llb *Buffer, p []byte) := forall i :: 0 <= i && i < llb.size ==> disjoint(nd(llb, i).buf, p)
+//@ pred noalias(llb *Buffer, p []byte) := !lbufs[llb][arr(p)] || arr(p) == nil
 //@ pred wf(llb *Buffer) := llb != nil && llb.size >= 0 &&
 //@     llb.head == (llb.size > 0 ? lnodes[llb][0] : nil) &&
 //@     llb.tail == (llb.size > 0 ? lnodes[llb][llb.size - 1] : nil) &&
 //@     lpoff[llb][0] == 0 && llb.bytes == lpoff[llb][llb.size] &&
 //@     (forall i, j :: 0 <= i && i <= j && j <= llb.size ==> lpoff[llb][i] <= lpoff[llb][j]) &&
 //@     (forall x *node :: !allocated(x) ==> nown[x] == nil) &&
+//@     (forall a Ref :: lbufs[llb][a] ==> allocated(a)) &&
 //@     (forall i :: 0 <= i && i < llb.size ==> nd(llb, i) != nil && allocated(nd(llb, i)) && npos[llb][nd(llb, i)] == i && nown[nd(llb, i)] == llb &&
-//@          nd(llb, i).next == (i + 1 < llb.size ? lnodes[llb][i + 1] : nil) && len(nd(llb, i).buf) > 0 && allocated(nd(llb, i).buf) &&
+//@          nd(llb, i).next == (i + 1 < llb.size ? lnodes[llb][i + 1] : nil) && len(nd(llb, i).buf) > 0 && lbufs[llb][arr(nd(llb, i).buf)] &&
 //@          lpoff[llb][i + 1] == lpoff[llb][i] + len(nd(llb, i).buf)) &&
 //@     (forall i, t :: 0 <= i && i < llb.size && 0 <= t && t < len(nd(llb, i).buf) ==>
 //@          lview[llb][lpoff[llb][i] + t] == nd(llb, i).buf[t])
@@ -51,7 +55,7 @@ package linkedlist
 //@   ensures old(llb.size) == 0 ==> b == nil && llb.size == 0 && llb.bytes == old(llb.bytes)
 //@   ensures old(llb.size) > 0 ==> b == old(llb.head) && b != nil && allocated(b) && b.next == nil && len(b.buf) > 0 &&
 //@        same(b.buf, old(llb.head.buf)) && llb.size == old(llb.size) - 1 && llb.bytes == old(llb.bytes) - len(b.buf)
-//@   ensures wf(llb) && (b != nil ==> nown[b] == nil)
+//@   ensures wf(llb) && (b != nil ==> nown[b] == nil && lbufs[llb][arr(b.buf)])
 //@   ensures forall x *node :: x != b ==> nown[x] == old(nown[x])
 //@   ensures forall t :: 0 <= t && t < len(b.buf) && old(llb.size) > 0 ==> b.buf[t] == old(lview[llb][t])
 //@   ensures forall i :: 0 <= i && i < llb.bytes && old(llb.size) > 0 ==> lview[llb][i] == old(lview[llb][i + lpoff[llb][1]])
@@ -60,9 +64,10 @@ package linkedlist
 //
 // pushFront: prepends b.buf.
 //@ func (llb *Buffer) pushFront(b *node)
-//@   requires wf(llb) && b != nil && allocated(b) && len(b.buf) > 0 && nown[b] == nil
+//@   requires wf(llb) && b != nil && allocated(b) && len(b.buf) > 0 && allocated(b.buf) && nown[b] == nil
 //@   arith unchecked the byte and node counters of a list stay far below 2^63 (memory is finite)
-//@   modifies b.next, llb.head, llb.tail, llb.size, llb.bytes, lnodes[llb], lpoff[llb], lview[llb], npos[llb], nown[b]
+//@   modifies b.next, llb.head, llb.tail, llb.size, llb.bytes, lnodes[llb], lpoff[llb], lview[llb], npos[llb], nown[b], lbufs[llb]
+//@   ghostdef lbufs[llb][arr(b.buf)] := true
 //@   ghostdef forall i :: lnodes[llb][i] := i == 0 ? b : old(lnodes[llb][i - 1])
 //@   ghostdef forall i :: lpoff[llb][i] := i <= 0 ? 0 : old(lpoff[llb][i - 1]) + len(b.buf)
 //@   ghostdef forall i :: lview[llb][i] := i < len(b.buf) ? b.buf[i] : old(lview[llb][i - len(b.buf)])
@@ -72,13 +77,15 @@ package linkedlist
 //@   ensures forall t :: 0 <= t && t < len(b.buf) ==> lview[llb][t] == b.buf[t]
 //@   ensures forall i :: 0 <= i && i < old(llb.bytes) ==> lview[llb][len(b.buf) + i] == old(lview[llb][i])
 //@   ensures forall i :: 1 <= i && i < llb.size ==> nd(llb, i) == old(nd(llb, i - 1))
+//@   ensures forall a Ref :: lbufs[llb][a] <==> (old(lbufs[llb][a]) || a == arr(b.buf))
 //
 // pushBack: appends b.buf.
 //@ func (llb *Buffer) pushBack(b *node)
-//@   requires wf(llb) && b != nil && allocated(b) && len(b.buf) > 0 && nown[b] == nil
+//@   requires wf(llb) && b != nil && allocated(b) && len(b.buf) > 0 && allocated(b.buf) && nown[b] == nil
 //@   arith unchecked the byte and node counters of a list stay far below 2^63 (memory is finite)
-//@   modifies b.next, llb.head, llb.tail, llb.size, llb.bytes, lnodes[llb], lpoff[llb], lview[llb], npos[llb], nown[b]
+//@   modifies b.next, llb.head, llb.tail, llb.size, llb.bytes, lnodes[llb], lpoff[llb], lview[llb], npos[llb], nown[b], lbufs[llb]
 //@   modifies llb.tail.next if llb.tail != nil
+//@   ghostdef lbufs[llb][arr(b.buf)] := true
 //@   ghostdef forall i :: lnodes[llb][i] := i == old(llb.size) ? b : old(lnodes[llb][i])
 //@   ghostdef forall i :: lpoff[llb][i] := i == old(llb.size) + 1 ? old(llb.bytes) + len(b.buf) : old(lpoff[llb][i])
 //@   ghostdef forall i :: lview[llb][i] := old(llb.bytes) <= i && i < old(llb.bytes) + len(b.buf) ? b.buf[i - old(llb.bytes)] : old(lview[llb][i])
@@ -88,6 +95,7 @@ package linkedlist
 //@   ensures forall i :: 0 <= i && i < old(llb.bytes) ==> lview[llb][i] == old(lview[llb][i])
 //@   ensures forall t :: 0 <= t && t < len(b.buf) ==> lview[llb][old(llb.bytes) + t] == b.buf[t]
 //@   ensures forall i :: 0 <= i && i < old(llb.size) ==> nd(llb, i) == old(nd(llb, i))
+//@   ensures forall a Ref :: lbufs[llb][a] <==> (old(lbufs[llb][a]) || a == arr(b.buf))
 //
 // ---- public methods (L1): verified against the helper contracts ---------------------------------
 //
@@ -104,48 +112,52 @@ package linkedlist
 //@   ensures res <==> llb.bytes == 0
 //
 //@ func (llb *Buffer) Append(p []byte)
-//@   requires wf(llb)
-//@   modifies llb.head, llb.tail, llb.size, llb.bytes, lnodes[llb], lpoff[llb], lview[llb], npos[llb], nown
+//@   requires wf(llb) && allocated(p)
+//@   modifies llb.head, llb.tail, llb.size, llb.bytes, lnodes[llb], lpoff[llb], lview[llb], npos[llb], nown, lbufs[llb]
 //@   modifies-each x *node where mine(llb, x) :: next
 //@   ensures wf(llb) && llb.bytes == old(llb.bytes) + len(p)
 //@   ensures forall i :: 0 <= i && i < old(llb.bytes) ==> lview[llb][i] == old(lview[llb][i])
 //@   ensures forall t :: 0 <= t && t < len(p) ==> lview[llb][old(llb.bytes) + t] == p[t]
 //@   ensures forall x *node :: old(allocated(x)) && old(nown[x]) != llb ==> nown[x] == old(nown[x])
+//@   ensures forall a Ref :: lbufs[llb][a] <==> (old(lbufs[llb])[a] || (len(p) > 0 && a == arr(p)))
 //
 //@ func (llb *Buffer) Pop() []byte
 //@   requires wf(llb)
-//@   modifies llb.head, llb.tail, llb.size, llb.bytes, lnodes[llb], lpoff[llb], lview[llb], npos[llb], nown
+//@   modifies llb.head, llb.tail, llb.size, llb.bytes, lnodes[llb], lpoff[llb], lview[llb], npos[llb], nown, lbufs[llb]
 //@   modifies-each x *node where mine(llb, x) :: next
 //@   ensures wf(llb)
 //@   ensures old(llb.size) == 0 ==> res == nil && llb.bytes == old(llb.bytes)
 //@   ensures old(llb.size) > 0 ==> len(res) > 0 && llb.bytes == old(llb.bytes) - len(res) && llb.size == old(llb.size) - 1
 //@   ensures forall t :: 0 <= t && t < len(res) && old(llb.size) > 0 ==> res[t] == old(lview[llb][t])
 //@   ensures forall i :: 0 <= i && i < llb.bytes && old(llb.size) > 0 ==> lview[llb][i] == old(lview[llb][i + len(res)])
+//@   ensures forall a Ref :: lbufs[llb][a] <==> old(lbufs[llb])[a]
 //
 // PushFront / PushBack copy their argument: the stored bytes live in memory obtained from the pool.
 //@ func (llb *Buffer) PushFront(p []byte)
 //@   requires wf(llb)
-//@   modifies llb.head, llb.tail, llb.size, llb.bytes, lnodes[llb], lpoff[llb], lview[llb], npos[llb], nown
+//@   modifies llb.head, llb.tail, llb.size, llb.bytes, lnodes[llb], lpoff[llb], lview[llb], npos[llb], nown, lbufs[llb]
 //@   modifies-each x *node where mine(llb, x) :: next
 //@   ensures wf(llb) && llb.bytes == old(llb.bytes) + len(p)
 //@   ensures forall t :: 0 <= t && t < len(p) ==> lview[llb][t] == p[t]
 //@   ensures forall i :: 0 <= i && i < old(llb.bytes) ==> lview[llb][len(p) + i] == old(lview[llb][i])
 //@   ensures len(p) > 0 ==> fresh(nd(llb, 0).buf)
+//@   ensures forall a Ref :: (old(lbufs[llb])[a] ==> lbufs[llb][a]) && (lbufs[llb][a] ==> old(lbufs[llb])[a] || fresh(a))
 //
 //@ func (llb *Buffer) PushBack(p []byte)
 //@   requires wf(llb)
-//@   modifies llb.head, llb.tail, llb.size, llb.bytes, lnodes[llb], lpoff[llb], lview[llb], npos[llb], nown
+//@   modifies llb.head, llb.tail, llb.size, llb.bytes, lnodes[llb], lpoff[llb], lview[llb], npos[llb], nown, lbufs[llb]
 //@   modifies-each x *node where mine(llb, x) :: next
 //@   ensures wf(llb) && llb.bytes == old(llb.bytes) + len(p)
 //@   ensures forall i :: 0 <= i && i < old(llb.bytes) ==> lview[llb][i] == old(lview[llb][i])
 //@   ensures forall t :: 0 <= t && t < len(p) ==> lview[llb][old(llb.bytes) + t] == p[t]
 //@   ensures len(p) > 0 ==> fresh(nd(llb, llb.size - 1).buf)
+//@   ensures forall a Ref :: (old(lbufs[llb])[a] ==> lbufs[llb][a]) && (lbufs[llb][a] ==> old(lbufs[llb])[a] || fresh(a))
 //
 // Read: take of min(len(p), Buffered) bytes into p.
 //@ func (llb *Buffer) Read(p []byte) (n int, err error)
 //@   requires wf(llb) && noalias(llb, p)
 //@   arith unchecked the byte counters stay far below 2^63
-//@   modifies llb.head, llb.tail, llb.size, llb.bytes, lnodes[llb], lpoff[llb], lview[llb], npos[llb], nown, mem(p)
+//@   modifies llb.head, llb.tail, llb.size, llb.bytes, lnodes[llb], lpoff[llb], lview[llb], npos[llb], nown, lbufs[llb], mem(p)
 //@   modifies-each x *node where mine(llb, x) :: buf, next
 //@   ensures wf(llb) && n == min(len(p), old(llb.bytes)) && llb.bytes == old(llb.bytes) - n
 //@   ensures forall i :: 0 <= i && i < n ==> p[i] == old(lview[llb][i])
@@ -153,10 +165,12 @@ package linkedlist
 //@   ensures len(p) > 0 && old(llb.bytes) == 0 ==> err == io.EOF
 //@   ensures len(p) == 0 || old(llb.bytes) > 0 ==> err == nil
 //@   ensures forall x *node :: old(nown[x]) != llb ==> nown[x] == old(nown[x])
+//@   ensures forall a Ref :: lbufs[llb][a] <==> old(lbufs[llb])[a]
 //@   loop 1:
+//@     invariant forall a Ref :: lbufs[llb][a] <==> old(lbufs[llb])[a]
 //@     invariant wf(llb) && noalias(llb, p) && llb == llb$0 && same(p, p$0) && err == nil
 //@     invariant 0 <= n && n <= len(p) && (b != nil ==> n < len(p)) && (b == nil ==> llb.size == 0)
-//@     invariant b != nil ==> allocated(b) && nown[b] == nil && old(nown[b]) == llb && len(b.buf) > 0 && disjoint(b.buf, p) && allocated(b.buf) && b.next == nil
+//@     invariant b != nil ==> allocated(b) && nown[b] == nil && old(nown[b]) == llb && len(b.buf) > 0 && lbufs[llb][arr(b.buf)] && b.next == nil
 //@     invariant llb.bytes + (b != nil ? len(b.buf) : 0) == old(llb.bytes) - n
 //@     invariant forall i :: 0 <= i && i < n ==> p[i] == old(lview[llb])[i]
 //@     invariant forall t :: b != nil && 0 <= t && t < len(b.buf) ==> b.buf[t] == old(lview[llb])[n + t]
@@ -167,14 +181,16 @@ package linkedlist
 //@ func (llb *Buffer) Discard(n int) (discarded int, err error)
 //@   requires wf(llb)
 //@   arith unchecked the byte counters stay far below 2^63
-//@   modifies llb.head, llb.tail, llb.size, llb.bytes, lnodes[llb], lpoff[llb], lview[llb], npos[llb], nown
+//@   modifies llb.head, llb.tail, llb.size, llb.bytes, lnodes[llb], lpoff[llb], lview[llb], npos[llb], nown, lbufs[llb]
 //@   modifies-each x *node where mine(llb, x) :: buf, next
 //@   ensures wf(llb) && err == nil && discarded == (n <= 0 ? 0 : min(n, old(llb.bytes))) && llb.bytes == old(llb.bytes) - discarded
 //@   ensures forall i :: 0 <= i && i < llb.bytes ==> lview[llb][i] == old(lview[llb])[discarded + i]
 //@   ensures forall x *node :: old(nown[x]) != llb ==> nown[x] == old(nown[x])
 //@   assert after pop #1: forall i :: 0 <= i && i < llb.bytes ==> lview[llb][i] == old(lview[llb])[discarded + (result != nil ? len(result.buf) : 0) + i]
 //@   assert after pop #1: forall t :: result != nil && 0 <= t && t < len(result.buf) ==> result.buf[t] == old(lview[llb])[discarded + t]
+//@   ensures forall a Ref :: lbufs[llb][a] <==> old(lbufs[llb])[a]
 //@   loop 1:
+//@     invariant forall a Ref :: lbufs[llb][a] <==> old(lbufs[llb])[a]
 //@     invariant wf(llb) && llb == llb$0 && err == nil && 0 <= n && 0 <= discarded && n + discarded == n$0 && n$0 > 0
 //@     invariant llb.bytes == old(llb.bytes) - discarded
 //@     invariant forall i :: 0 <= i && i < llb.bytes ==> lview[llb][i] == old(lview[llb])[discarded + i]
@@ -182,13 +198,15 @@ package linkedlist
 //
 //@ func (llb *Buffer) Reset()
 //@   requires wf(llb)
-//@   modifies llb.head, llb.tail, llb.size, llb.bytes, lnodes[llb], lpoff[llb], lview[llb], npos[llb], nown
+//@   modifies llb.head, llb.tail, llb.size, llb.bytes, lnodes[llb], lpoff[llb], lview[llb], npos[llb], nown, lbufs[llb]
 //@   modifies-each x *node where mine(llb, x) :: buf, next
 //@   ensures wf(llb) && llb.bytes == 0 && llb.size == 0
 //@   ensures forall x *node :: old(nown[x]) != llb ==> nown[x] == old(nown[x])
+//@   ensures forall a Ref :: lbufs[llb][a] <==> old(lbufs[llb])[a]
 //@   loop 1:
+//@     invariant forall a Ref :: lbufs[llb][a] <==> old(lbufs[llb])[a]
 //@     invariant wf(llb) && llb == llb$0 && (b == nil ==> llb.size == 0)
-//@     invariant b != nil ==> allocated(b) && old(nown[b]) == llb
+//@     invariant b != nil ==> allocated(b) && old(nown[b]) == llb && lbufs[llb][arr(b.buf)]
 //@     invariant forall x *node :: (nown[x] == llb ==> old(nown[x]) == llb) && (old(nown[x]) != llb ==> nown[x] == old(nown[x]))
 //
 // ReadFrom: stores every byte the reader returned (also bytes returned together with EOF or an error)
@@ -196,13 +214,15 @@ package linkedlist
 //@ func (llb *Buffer) ReadFrom(r io.Reader) (n int64, err error)
 //@   requires wf(llb) && r != nil
 //@   arith unchecked the byte counters stay far below 2^63
-//@   modifies llb.head, llb.tail, llb.size, llb.bytes, lnodes[llb], lpoff[llb], lview[llb], npos[llb], nown, rpos[ref(r)]
+//@   modifies llb.head, llb.tail, llb.size, llb.bytes, lnodes[llb], lpoff[llb], lview[llb], npos[llb], nown, lbufs[llb], rpos[ref(r)]
 //@   modifies-each x *node where mine(llb, x) :: next
-//@   ensures wf(llb) && n == rpos[ref(r)] - old(rpos[ref(r)]) && llb.bytes == old(llb.bytes) + n
+//@   ensures wf(llb) && n >= 0 && n == rpos[ref(r)] - old(rpos[ref(r)]) && llb.bytes == old(llb.bytes) + n
 //@   ensures forall i :: 0 <= i && i < old(llb.bytes) ==> lview[llb][i] == old(lview[llb])[i]
 //@   ensures forall j :: 0 <= j && j < n ==> lview[llb][old(llb.bytes) + j] == rdata[ref(r)][old(rpos[ref(r)]) + j]
 //@   ensures forall x *node :: old(allocated(x)) && old(nown[x]) != llb ==> nown[x] == old(nown[x])
+//@   ensures forall a Ref :: (old(lbufs[llb])[a] ==> lbufs[llb][a]) && (lbufs[llb][a] ==> old(lbufs[llb])[a] || fresh(a))
 //@   loop 1:
+//@     invariant forall a Ref :: (old(lbufs[llb])[a] ==> lbufs[llb][a]) && (lbufs[llb][a] ==> old(lbufs[llb])[a] || fresh(a))
 //@     invariant wf(llb) && llb == llb$0 && same(r, r$0) && n >= 0
 //@     invariant n == rpos[ref(r)] - old(rpos[ref(r)]) && llb.bytes == old(llb.bytes) + n
 //@     invariant forall i :: 0 <= i && i < old(llb.bytes) ==> lview[llb][i] == old(lview[llb])[i]
@@ -213,20 +233,27 @@ package linkedlist
 //@ func (llb *Buffer) WriteTo(w io.Writer) (n int64, err error)
 //@   requires wf(llb) && w != nil
 //@   arith unchecked the byte counters stay far below 2^63
-//@   modifies llb.head, llb.tail, llb.size, llb.bytes, lnodes[llb], lpoff[llb], lview[llb], npos[llb], nown, wpos[ref(w)], wdata[ref(w)]
+//@   modifies llb.head, llb.tail, llb.size, llb.bytes, lnodes[llb], lpoff[llb], lview[llb], npos[llb], nown, lbufs[llb], wpos[ref(w)], wdata[ref(w)], wfail[ref(w)]
 //@   modifies-each x *node where mine(llb, x) :: buf, next
 //@   ensures wf(llb) && n == wpos[ref(w)] - old(wpos[ref(w)]) && 0 <= n && n <= old(llb.bytes) && llb.bytes == old(llb.bytes) - n
 //@   ensures forall i :: 0 <= i && i < llb.bytes ==> lview[llb][i] == old(lview[llb])[n + i]
 //@   ensures forall i :: 0 <= i && i < n ==> wdata[ref(w)][old(wpos[ref(w)]) + i] == old(lview[llb])[i]
+//@   ensures forall i :: i < old(wpos[ref(w)]) ==> wdata[ref(w)][i] == old(wdata[ref(w)])[i]
+//@   ensures !wfail[ref(w)] ==> err == nil && n == old(llb.bytes)
+//@   ensures old(wfail[ref(w)]) ==> wfail[ref(w)]
 //@   ensures err == nil ==> n == old(llb.bytes)
 //@   ensures forall x *node :: old(nown[x]) != llb ==> nown[x] == old(nown[x])
+//@   ensures forall a Ref :: lbufs[llb][a] <==> old(lbufs[llb])[a]
 //@   loop 1:
+//@     invariant forall a Ref :: lbufs[llb][a] <==> old(lbufs[llb])[a]
 //@     invariant wf(llb) && llb == llb$0 && same(w, w$0) && err == nil && n >= 0 && (b == nil ==> llb.size == 0)
-//@     invariant b != nil ==> allocated(b) && nown[b] == nil && old(nown[b]) == llb && len(b.buf) > 0 && allocated(b.buf) && b.next == nil
+//@     invariant b != nil ==> allocated(b) && nown[b] == nil && old(nown[b]) == llb && len(b.buf) > 0 && lbufs[llb][arr(b.buf)] && b.next == nil
 //@     invariant n == wpos[ref(w)] - old(wpos[ref(w)]) && llb.bytes + (b != nil ? len(b.buf) : 0) == old(llb.bytes) - n
 //@     invariant forall t :: b != nil && 0 <= t && t < len(b.buf) ==> b.buf[t] == old(lview[llb])[n + t]
 //@     invariant forall i :: 0 <= i && i < llb.bytes ==> lview[llb][i] == old(lview[llb])[n + (b != nil ? len(b.buf) : 0) + i]
 //@     invariant forall i :: 0 <= i && i < n ==> wdata[ref(w)][old(wpos[ref(w)]) + i] == old(lview[llb])[i]
+//@     invariant forall i :: i < old(wpos[ref(w)]) ==> wdata[ref(w)][i] == old(wdata[ref(w)])[i]
+//@     invariant old(wfail[ref(w)]) ==> wfail[ref(w)]
 //@     invariant forall x *node :: (nown[x] == llb ==> old(nown[x]) == llb) && (old(nown[x]) != llb ==> nown[x] == old(nown[x]))
 //
 // Peek: the result is made of prefixes of the buffers of consecutive nodes, covering exactly T bytes,
